@@ -14,6 +14,7 @@ import (
 	"strconv"
 	"strings"
 	"sync"
+	"sync/atomic"
 	"syscall"
 	"time"
 )
@@ -483,6 +484,7 @@ func replayMain(o *options) int {
 // ---------------------------------------------------------------------------------------
 
 type workerResult struct {
+	hang     bool
 	sum      *workerSummary
 	viols    []string
 	crashIdx int // -1 none
@@ -523,6 +525,32 @@ func launchWorker(bin string, o *options, race bool, offset, stride int, only in
 		return res
 	}
 	timer := time.AfterFunc(o.maxWall, func() { cmd.Process.Kill(); res.fault = "watchdog: worker exceeded " + o.maxWall.String() })
+	// per-run progress watchdog: a single run (including shrinking) that shows no progress for
+	// hangTimeout is killed and handled like a crash of that run (class HANG, confirmed by
+	// re-executing the run alone)
+	var progress int64 = time.Now().UnixNano()
+	hangTimeout := 5 * time.Minute
+	if o.tier == "thorough" {
+		hangTimeout = 10 * time.Minute
+	}
+	stopWatch := make(chan struct{})
+	go func() {
+		tk := time.NewTicker(5 * time.Second)
+		defer tk.Stop()
+		for {
+			select {
+			case <-stopWatch:
+				return
+			case <-tk.C:
+				if time.Since(time.Unix(0, atomic.LoadInt64(&progress))) > hangTimeout {
+					res.hang = true
+					cmd.Process.Kill()
+					return
+				}
+			}
+		}
+	}()
+	defer close(stopWatch)
 	last := -1
 	done := false
 	sc := bufio.NewScanner(stdout)
@@ -532,6 +560,7 @@ func launchWorker(bin string, o *options, race bool, offset, stride int, only in
 		switch {
 		case strings.HasPrefix(line, "B "):
 			last, _ = strconv.Atoi(line[2:])
+			atomic.StoreInt64(&progress, time.Now().UnixNano())
 		case strings.HasPrefix(line, "V "):
 			res.viols = append(res.viols, line[2:])
 		case strings.HasPrefix(line, "S "):
@@ -971,6 +1000,9 @@ func parentMain(o *options) int {
 			return fatal2("worker died in run %d (%s | %s) but neither the run alone nor the worker's share crashes again", cr.idx, strings.Join(sig0, " | "), tail(cr.stderr, 2))
 		}
 		class, sig, funcs := stderrSignature(stderrText)
+		if r != nil && r.hang {
+			class, sig = "HANG", []string{fmt.Sprintf("the run made no progress for more than the watchdog's limit; killed (and again when re-executed alone)")}
+		}
 		if class == "DATA_RACE" && len(funcs) == 0 {
 			// Both stacks are in harness code: memory the library handed to two tasks at once is
 			// touched by their self-checks. (The harness itself shares nothing between tasks: on
